@@ -10,6 +10,10 @@ CLAIMED = {}
 def claim(pid, cat, tech, text, note):
     CLAIMED[pid] = (cat, tech, text, note)
 
+def also(pid, more):
+    cat, tech, text, note = CLAIMED[pid]
+    CLAIMED[pid] = (cat, tech, text.rstrip() + " " + more, note)
+
 exec(open(os.path.join(HERE, "manifest_claims.py")).read())
 
 checks = []
